@@ -2,9 +2,12 @@
 
 spec: Heap.tla (Go values as a heap graph; Iso, Disjoint, Snapshot, mutations), HeapMC.tla (design level:
       every copy routine of a family x every mutation sequence <= 2 over template heaps), HeapShapes.tla
-      (shape universe: node type x kind chain x payload x fill), HeapTrace.tla (validation of real copies)
-real code: every DeepCopy method of internal/ast (found by reflection), compiler.Passes.Process, the
-      `duplicate` builder and option rules; all through the verifapi facade.
+      (shape universe: node type x kind chain x payload x fill), HeapTrace.tla (validation of real copies),
+      HeapDup.tla (the duplicate rules: rule x source shape x exclusion list x target package -> what the duplicate
+      keeps, which real transformations follow), HeapDupTrace.tla (validation of real duplicates)
+real code: every DeepCopy method of internal/ast (found by reflection), compiler.Passes.Process, the three duplicate
+      rules (schema transformation duplicate_object, builder rule duplicate, option rule duplicate); all through the
+      verifapi facade.
 
   worker c18-roots        -> types with a DeepCopy method            -> constant Roots of HeapShapes
   TLC HeapMC              -> Safe (Iso /\\ Disjoint => immune), REVEAL -> mutation plans
@@ -12,8 +15,11 @@ real code: every DeepCopy method of internal/ast (found by reflection), compiler
   worker c18-run          -> per shape: fill, real DeepCopy, heap graphs, Iso/Disjoint, plans on the copy,
                              snapshot of the original; records for HeapTrace
   TLC HeapTrace (report)  -> Iso / Disjoint / Snapshot / Drift per record, cross-checked with the worker
-  worker c18-real         -> Passes.Process leaves its input unchanged; duplicate rules yield faithful,
-                             independent duplicates
+  worker c18-real         -> Passes.Process leaves its input unchanged
+  TLC HeapDup             -> DUPCASE lines
+  worker c18-dup          -> per case: the real duplicate rule; Iso against the source without what the spec says is
+                             not kept, Disjoint, writes through duplicate and source, real passes aimed at one of them
+  TLC HeapDupTrace        -> Iso / Disjoint / Snapshot / Drift per recorded duplicate, cross-checked with the worker
 """
 import json
 import os
@@ -21,6 +27,7 @@ import os
 from vlib import core
 
 NSLICES = 48
+DUP_NSLICES = 2     # quick: half of the kind chains of the duplicate-rule cases (every rule, fill and exclusion list in both)
 OUTER_NSLICES = 6   # thorough: roots other than Type get every kind directly below them + 1/6 of the two-level chains
 OPS = ["SetField", "SetElem", "AppendWithinCap", "MapInsert", "MapDelete", "SetThroughPointer"]
 REAL_CHAINS = [["struct", k] for k in ("scalar", "ref", "constant_ref", "enum", "array", "map", "struct", "disjunction",
@@ -107,17 +114,16 @@ def real_shapes(ctx):
             for p in REAL_PAYLOADS:
                 out.write(json.dumps({"root": "Schemas", "chain": chain, "fill": "wellformed", "payload": p}) + "\n")
         out.write(json.dumps({"root": "Schemas", "chain": ["struct", "scalar"], "fill": "saturated", "payload": "nested"}) + "\n")
-        for chain in (["struct"], ["scalar"], ["ref"]):
-            for fill, p in (("wellformed", "scalar"), ("wellformed", "slice"), ("wellformed", "map"), ("wellformed", "irnode"),
-                            ("saturated", "nested"), ("sparse", "slice"), ("nilled", "scalar"), ("emptied", "slice"), ("wide", "slice"), ("zeroed", "false")):
-                out.write(json.dumps({"root": "Builder", "chain": chain, "fill": fill, "payload": p}) + "\n")
     return f
 
 
 def collect(ctx, summary, replay_of):
     for sig, agg in summary["signatures"].items():
         ex = agg["examples"][0]
-        what = "%s (x%d)" % (json.dumps({k: v for k, v in ex.items() if k != "shape"})[:400], agg["count"])
+        what = "%s (x%d)" % (json.dumps({k: v for k, v in ex.items() if k not in ("shape", "case")})[:400], agg["count"])
+        if "case" in ex:
+            what = "%s %s %s/%s excluded=%s into=%s: %s" % (ex["case"]["rule"], "/".join(ex["case"]["chain"]), ex["case"]["fill"],
+                                                          ex["case"]["payload"], "+".join(ex["case"]["excl"]) or "none", ex["case"]["target"], what)
         ctx.fail(sig, what, replay_of(ex))
 
 
@@ -222,6 +228,127 @@ def selftest_binding(ctx, recs, failed):
         k for k in res if k != "good")
 
 
+def drop_kept_element(rec):
+    """Corrupt a record: claim that the duplicate keeps one element less than it does (or one more when nothing was left out)."""
+    if rec["path"] and rec["keep"]:
+        rec["keep"] = rec["keep"][:-1]
+        return True
+    return False
+
+
+def duplicate_rules(ctx, cov, quick, problems):
+    """The duplicate rules of cog on the cases of HeapDup.tla: (A) TLC enumerates rule x source shape x exclusion list x target
+    package with what the duplicate must keep; (B) worker c18-dup runs the real rule on each; (C) the recorded duplicates are
+    judged again by TLC (HeapDupTrace) and both verdicts compared; Strict self-test."""
+    consts = {"NSlices": DUP_NSLICES if quick else 1, "Slice": ctx.seed % DUP_NSLICES if quick else 0}
+    r_cases = ctx.run_tlc("HeapDup", "HeapDup.cfg", workers=2, timeout=600, constants=consts)
+    cases = os.path.join(ctx.scratch, "dupcases.ndjson")
+    n = core.tagged_to_file(r_cases["out"], "DUPCASE", cases)
+    os.remove(r_cases["out"])
+    if n != r_cases["distinct"] or n == 0:
+        raise core.Inconclusive("TLC printed %d duplicate-rule cases for %d distinct states" % (n, r_cases["distinct"]))
+    trace = os.path.join(ctx.scratch, "duptrace.ndjson")
+    ds = json.loads(ctx.run_worker(["c18-dup", "-cases", cases, "-trace", trace, "-trace-max", "400" if quick else "1500",
+                                    "-trace-cells", "150"], timeout=2400))
+    collect(ctx, ds, lambda ex: {"case": ex["case"], "dup": True})
+    for h in ds.get("harness_errors") or []:
+        problems.append("harness (duplicate rules): " + h)
+    st = ds["stats"]
+    # vacuity: every rule, every exclusion class, both kinds of list, non-struct sources, both packages, both directions of
+    # writing, every follow-up pass effective through the duplicate and through the source
+    judged = st["duplicates_judged_per_rule"]
+    vac = []
+    for rule in ("duplicate_object", "builder_duplicate", "option_duplicate"):
+        if judged.get(rule, 0) == 0:
+            vac.append("no duplicate judged for rule %s" % rule)
+    for rule in ("duplicate_object", "builder_duplicate"):
+        for cl in ("none", "absent", "first", "last", "all", "absent+first", "first+last"):
+            if st["duplicates_judged_per_exclusion_class"].get("%s/%s" % (rule, cl), 0) == 0:
+                vac.append("exclusion list %s never exercised on %s" % (cl, rule))
+        if not any(k.startswith(rule + "/") and int(k.split("/")[1]) >= 2 and v for k, v in st["sources_per_number_of_excludable_elements"].items()):
+            vac.append("%s: no source with at least two excludable elements" % rule)
+    for k in ("duplicates_that_left_elements_out", "duplicates_with_a_list_that_left_nothing_out",
+              "object_duplicates_of_non_struct_sources", "object_duplicates_into_another_package"):
+        if st[k] == 0:
+            vac.append("%s = 0" % k)
+    for k in ("through_duplicate", "through_source"):
+        if st["writes_per_direction"].get(k, 0) == 0:
+            vac.append("no write %s" % k)
+    follows = sorted(st["follow_runs"])
+    dead = [k for k in follows if st["follow_effective"].get(k, 0) == 0]
+    if len(follows) < 16 or dead:
+        vac.append("follow-up passes: %d kinds run, never effective: %s" % (len(follows), dead))
+    if vac:
+        problems.append("duplicate rules vacuous: " + "; ".join(vac))
+
+    # (C) TLC judges the recorded duplicates
+    recs = [json.loads(x) for x in open(trace)] if os.path.exists(trace) else []
+    r_trace, binding = None, "not run"
+    try:
+        if not recs:
+            raise core.Inconclusive("no duplicate small enough for HeapDupTrace")
+        r_trace = ctx.run_tlc("HeapDupTrace", "HeapDupTrace.cfg", workers=1, timeout=1800, files={"duptrace.ndjson": trace})
+        consumed = _ints(r_trace["out"], "CONSUMED")
+        if not consumed or consumed[-1] != len(recs):
+            raise core.Inconclusive("HeapDupTrace consumed %s of %d records" % (consumed, len(recs)))
+        failed = {f["l"]: f for f in core.tagged_lines(r_trace["out"], "FAIL")}
+        per_clause = {"Iso": 0, "Disjoint": 0, "Snapshot": 0}
+        for i, rec in enumerate(recs, start=1):
+            v = set(failed[i]["violated"]) if i in failed else set()
+            if "Drift" in v:
+                raise core.Inconclusive("model and observation disagree on duplicate record %d (%s): replaying the recorded writes "
+                                        "predicts leaks %s, observed %s" % (i, rec["case"]["rule"], sorted(failed[i]["predicted"]), rec["leaks"]))
+            if rec["go_iso"] != ("Iso" not in v) or rec["go_disjoint"] != ("Disjoint" not in v) or bool(rec["leaks"]) != ("Snapshot" in v):
+                raise core.Inconclusive("TLC and the worker disagree on duplicate record %d (%s %s excl %s): TLC %s, worker iso=%s disjoint=%s leaks=%s"
+                                        % (i, rec["case"]["rule"], rec["case"]["chain"], rec["case"]["excl"], sorted(v), rec["go_iso"],
+                                           rec["go_disjoint"], rec["leaks"]))
+            for c in per_clause:
+                per_clause[c] += c in v
+        # Strict self-test: a genuine duplicate that left elements out is accepted; corrupted records are rejected
+        good = None
+        for i, rec in enumerate(recs, start=1):
+            if i not in failed and rec["path"] and rec["keep"] and rec["ncells"] >= 6 and share_one_cell(json.loads(json.dumps(rec))):
+                good = rec
+                break
+        if good is None:
+            raise core.Inconclusive("binding self-test: no accepted record of a duplicate that left elements out")
+        variants = {"good": json.loads(json.dumps(good))}
+        for name, corrupt in (("shared-cell", share_one_cell), ("kept-element-dropped", drop_kept_element)):
+            bad = json.loads(json.dumps(good))
+            if corrupt(bad):
+                variants[name] = bad
+        bad = json.loads(json.dumps(good))
+        bad["leaks"] = ["k>o"]
+        variants["observed-leak"] = bad
+        res = {}
+        for name, rec in variants.items():
+            r = ctx.run_tlc("HeapDupTrace", "HeapDupTrace.cfg", workers=1, timeout=300,
+                            files={"duptrace.ndjson": (json.dumps(rec) + "\n").encode()}, constants={"Strict": "TRUE"},
+                            allow_violation=True)
+            res[name] = r["violated"]
+        if res["good"] or len(res) < 4 or not all(v for k, v in res.items() if k != "good"):
+            raise core.Inconclusive("binding self-test (duplicates) failed: %s" % res)
+        binding = "HeapDupTrace(Strict) accepts a genuine record of a real duplicate rule and rejects it after: %s" % ", ".join(
+            k for k in res if k != "good")
+        cov["duplicate_trace"] = {"records": len(recs), "records_failing_per_clause": per_clause,
+                                  "records_that_left_elements_out": sum(1 for x in recs if x["path"]),
+                                  "records_per_rule": {k: sum(1 for x in recs if x["case"]["rule"] == k) for k in sorted({x["case"]["rule"] for x in recs})},
+                                  "binding_selftest": binding}
+    except core.Inconclusive as e:
+        problems.append(str(e))
+    cov["duplicate_rules"] = {
+        "cases_from_tlc": n,
+        "case_coverage": ("slice %d of %d of the kind chains; every rule, fill/payload combination, exclusion list and target package" % (
+            ctx.seed % DUP_NSLICES, DUP_NSLICES)) if quick else "all cases",
+        **{k: st[k] for k in ("cases_per_rule", "duplicates_judged_per_rule", "duplicates_judged_per_exclusion_class",
+                              "sources_per_number_of_excludable_elements", "duplicates_that_left_elements_out",
+                              "duplicates_with_a_list_that_left_nothing_out", "object_duplicates_of_non_struct_sources",
+                              "object_duplicates_into_another_package", "writes_per_direction", "follow_runs", "follow_effective",
+                              "follow_errors", "cells", "max_cells")},
+    }
+    return [r for r in (r_cases, r_trace) if r], ds, recs
+
+
 def run_shapes(ctx, shapes_file, plans_file, extra):
     """worker c18-run; a fatal crash of the worker (stack overflow, out of memory: not a recoverable panic) is attributed to
     the shapes that were in flight (progress file), each re-run alone; reproducible crashes become findings and the rest of
@@ -280,11 +407,16 @@ def replay(ctx):
     rp = json.load(open(ctx.replay))
     want = rp.get("signature")
     ex = rp["replay"]
-    shape = ex["shape"]
+    shape = ex.get("shape")
     sf = os.path.join(ctx.scratch, "shape.ndjson")
     open(sf, "w").write(json.dumps(shape) + "\n")
     found = {}
-    if ex.get("real"):
+    if ex.get("dup"):
+        cf = os.path.join(ctx.scratch, "dupcase.ndjson")
+        open(cf, "w").write(json.dumps(ex["case"]) + "\n")
+        s = json.loads(ctx.run_worker(["c18-dup", "-cases", cf]))
+        found.update(s["signatures"])
+    elif ex.get("real"):
         s = json.loads(ctx.run_worker(["c18-real", "-shapes", sf]))
         found.update(s["signatures"])
     else:
@@ -351,9 +483,17 @@ def run(ctx):
         collect(ctx, rs, lambda ex: {"shape": ex["shape"], "real": True})
     except core.Inconclusive as e:
         problems.append(str(e))
-    rst = {k: rs["stats"].get(k, 0) for k in ("schema_inputs", "process_calls", "runs_with_input_mutated", "builder_inputs",
-                                                "builder_duplicates_judged", "option_duplicates_judged", "mutations_applied_to_duplicates")}
+    rst = {k: rs["stats"].get(k, 0) for k in ("schema_inputs", "process_calls", "runs_with_input_mutated")}
     rst.update({k: rs["stats"].get(k, {}) for k in ("pass_changed_its_copy", "pass_errors", "pass_panics")})
+
+    # the duplicate rules (HeapDup): TLC cases -> real rules -> TLC trace validation
+    r_dup, dst, dup_recs, ds = [], {"cases": 0, "duplicates_judged_per_rule": {}}, [], {"samples": []}
+    try:
+        r_dup, ds, dup_recs = duplicate_rules(ctx, cov, quick, problems)
+        dst = ds["stats"]
+    except core.Inconclusive as e:
+        problems.append(str(e))
+    dup_judged = sum(dst["duplicates_judged_per_rule"].values())
 
     # vacuity
     missing_roots = [r for r in roots["roots"] if st["shapes_per_root"].get(r, 0) == 0]
@@ -366,9 +506,8 @@ def run(ctx):
     if st["recopies_judged"] == 0:
         problems.append("no second call / copy of a copy was judged")
     effective = sorted(p for p in rs["passes"] if rst["pass_changed_its_copy"].get(p, 0) > 0)
-    if len(effective) < 15 or rst["builder_duplicates_judged"] == 0 or rst["option_duplicates_judged"] == 0:
-        problems.append("real transformations vacuous: %d effective passes, %d/%d duplicates" % (
-            len(effective), rst["builder_duplicates_judged"], rst["option_duplicates_judged"]))
+    if len(effective) < 15:
+        problems.append("real transformations vacuous: %d effective passes" % len(effective))
     known = {k["signature"] for k in core.load_known() if k["property"] == ctx.pid and k.get("status", "known") == "known" and "signature" in k}
     unlisted = [f for f in ctx.failures if f["signature"] not in known]
     if problems and not unlisted:
@@ -376,20 +515,22 @@ def run(ctx):
     if problems:
         cov["inconclusive_parts"] = problems   # reported next to the violations, which stand
 
-    tl = [r for r in (r_design, r_shapes, r_trace) if r]
+    tl = [r for r in (r_design, r_shapes, r_trace) if r] + r_dup
     cov.update({
         "states": sum(r["distinct"] for r in tl),
         "transitions": sum(r["generated"] for r in tl),
-        "traces_validated_against_impl": len(recs),
+        "traces_validated_against_impl": len(recs) + len(dup_recs),
         "exhaustive": False,
         "shape_coverage": ("slice %d of %d of the kind chains, every root, every payload/fill combination" % (ctx.seed % NSLICES, NSLICES)) if quick else
                           ("Type: every kind chain to depth 3; the other %d roots: every kind directly below them and slice %d of %d of the "
                            "two-level chains; every payload/fill combination" % (len(roots["roots"]) - 1, ctx.seed % OUTER_NSLICES, OUTER_NSLICES)),
-        "evaluations": st["cases"] + rst["process_calls"] + rst["builder_duplicates_judged"] + rst["option_duplicates_judged"],
+        "evaluations": st["cases"] + rst["process_calls"] + dup_judged,
         "distinct_nontrivial": st["nontrivial_cases"],
         "rule": "one evaluation = one (shape, mutation plan) executed on a real DeepCopy method: instantiate the shape with the "
                 "reflection filler, copy, compare heap graphs (Iso, Disjoint), perform the plan at every site of the copy, compare "
-                "a deep snapshot of the original - or one real Passes.Process call / duplicate rule application; shapes are "
+                "a deep snapshot of the original - or one real Passes.Process call / one case of HeapDup run on the real duplicate "
+                "rule (faithful against the source without what the spec says is not kept, disjoint, writes both ways, follow-up "
+                "passes); shapes and cases are "
                 "distinct TLC states and plans distinct op sequences; non-trivial = the plan performed at least one write on the copy",
         "deepcopy_methods": roots["roots"], "shapes_from_tlc": n_shapes, "shapes_instantiated": st["shapes"],
         "shapes_skipped_as_duplicates": st["skipped_duplicate_shapes"], "plans_core": plans["core"], "plans_rotating": len(plans["rotate"]),
@@ -400,13 +541,12 @@ def run(ctx):
         "shapes_iso_ok": st["shapes_iso_ok"], "shapes_disjoint_ok": st["shapes_disjoint_ok"],
         "cases_with_visible_mutation": st["cases_with_visible_mutation"],
         "second_calls_and_copies_of_copies_judged": st["recopies_judged"], "shapes_with_fatal_crash": fatal_shapes,
-        "real_transformations": {k: rst[k] for k in ("schema_inputs", "process_calls", "runs_with_input_mutated", "builder_inputs",
-                                                      "builder_duplicates_judged", "option_duplicates_judged",
-                                                      "mutations_applied_to_duplicates")},
+        "real_transformations": {k: rst[k] for k in ("schema_inputs", "process_calls", "runs_with_input_mutated")},
         "effective_passes": effective, "pass_errors": rst["pass_errors"], "pass_panics_not_judged_here": rst["pass_panics"],
         "binding_selftest": binding,
-        "samples": (s["samples"] or recs[:1] or [{"note": "no record"}])[:2] + rs["samples"][:1],
-        "checker_cmd": "tlc HeapMC (MaxMut=2); tlc HeapShapes (%s); worker c18-run; tlc HeapTrace; worker c18-real" % (
+        "samples": (s["samples"] or recs[:1] or [{"note": "no record"}])[:2] + rs["samples"][:1] + ds["samples"][:1],
+        "checker_cmd": "tlc HeapMC (MaxMut=2); tlc HeapShapes (%s); worker c18-run; tlc HeapTrace; worker c18-real; tlc HeapDup; "
+                       "worker c18-dup; tlc HeapDupTrace" % (
             "slice %d/%d" % (ctx.seed % NSLICES, NSLICES) if quick else "all shapes"),
     })
     return ctx.finish("model_checking", cov, [
@@ -420,7 +560,13 @@ def run(ctx):
         "PassesTrail and VeneerTrail are compared like every other declared field",
         "`any` payloads are instantiated as scalars (also every falsy one), []any, map[string]any, nestings of them, "
         "ast.DisjunctionType values (which cog itself stores), typed slices/maps, a map in a map, pointers and a pointer to a pointer",
-        "for the duplicate rules the fields the rules document they set (Name, the appended VeneerTrail entry) are excluded",
+        "for the duplicate rules what the rules document they set is excluded: the name (duplicate_object: also the self reference), "
+        "the one appended trail entry, and the elements named by the exclusion list (the duplicate is compared with the source "
+        "without them, in source order); exclusion lists name elements exactly or not at all (case folding of the list is the "
+        "rule's business, not this property's)",
+        "follow-up passes are schema transformations that take an object or field reference, aimed at the duplicate (or the source) "
+        "in the same chain after duplicate_object: the other object must come out as from the chain without them; passes that "
+        "work on every object are not used for this (what they do to the source is their own effect)",
         "heaps larger than 150 cells are judged by the worker only (same operators, in Go); TLC judges the sampled smaller ones "
         "and both verdicts are cross-checked on every sampled record",
     ])
